@@ -26,6 +26,7 @@ var recvs = []string{
 	"Function.prototype", "String.prototype", "({length: 3, 0: 1, 2: 3})", "Object.freeze([1,2])",
 	"RegExp.prototype", "Date.prototype", "Number.prototype", "Boolean.prototype", "Error.prototype", "(function f(){}).bind(null)",
 	"String.fromCharCode(0xD800)", `new String("\ud83d\ude00".slice(0, 1) + "1")`,
+	"__goSlice", "__goArr", "__goMap", "__goStruct", "__goFunc", "__goIface",
 	"Object.create(Array.prototype)", "Object.create(String.prototype)", "Object.create(RegExp.prototype)", "Object.create(Date.prototype)",
 	"Object.create(Number.prototype)", "Object.create(Function.prototype)", "Object.create(Error.prototype)", "Object.create(Boolean.prototype)",
 }
@@ -38,6 +39,7 @@ var argvs = []string{
 	// strings held as UTF-16 code units (unpaired surrogates): a second internal representation every
 	// conversion has to know
 	"String.fromCharCode(0xDC00)", `("12" + String.fromCharCode(0xD800))`, `"\ud83d\ude00".slice(1)`,
+	"__goSlice", "__goArr", "__goMap", "__goStruct", "__goFunc",
 }
 
 // discover enumerates every function reachable from the global object (own properties, any
@@ -57,7 +59,6 @@ const discoverJS = `
     names.sort();
     for (var k = 0; k < names.length; k++) {
       var n = names[k];
-      if (n === "caller" || n === "arguments" || n === "callee") continue;
       var d;
       try { d = Object.getOwnPropertyDescriptor(o, n); } catch (e) { continue; }
       if (!d) continue;
@@ -74,6 +75,14 @@ const discoverJS = `
     visit(g[names[k]], names[k], 0);
   }
   visit(console, "console", 0);
+  // instances: their own accessor functions (an Error's stack getter, a function's caller getter, an
+  // arguments object's callee) are not reachable from the global object
+  var inst = ['(new(Error)("e"))', '(new(TypeError)("t"))', '(function(){try{null.x}catch(e){return(e)}})()',
+    '(function(a,b){return(arguments)})(1,2)', '(function(a){return(a)})', '(function(){}).bind(null,1)',
+    '(/x/g)', '(new(Date)(0))', '(new(String)("s"))', '(new(Number)(1))', '([1,2])', '({})', '(Math.abs)'];   // no spaces: a path is one token of the request line
+  for (var k = 0; k < inst.length; k++) {
+    try { visit((0, eval)(inst[k]), inst[k], 0); } catch (e) {}
+  }
   return out.join("\n");
 }).call(this)`
 
@@ -134,10 +143,25 @@ type haltT struct{}
 // newVM makes a runtime with a stack limit and a watchdog: a script still running after 1.5 s is
 // halted through the interrupt channel (non-termination by design is not a defect; failing to
 // honour the interrupt shows up as "timeout").
+type goPoint struct {
+	A int
+	B string
+	C []int
+}
+
+func (p *goPoint) Sum(n int) int { return p.A + n }
+
 func newVM() *otto.Otto {
 	vm := otto.New()
 	vm.SetStackDepthLimit(200)
 	vm.Interrupt = make(chan func(), 1)
+	// bridged Go values are receivers and arguments like any other object
+	vm.Set("__goSlice", []int{1, 2, 3})
+	vm.Set("__goArr", [2]string{"a", "c"})
+	vm.Set("__goMap", map[string]int{"a": 1, "length": 2})
+	vm.Set("__goStruct", &goPoint{A: 1, B: "b", C: []int{7}})
+	vm.Set("__goFunc", func(a int, b ...string) int { return a + len(b) })
+	vm.Set("__goIface", []interface{}{1, "x", nil, 2.5})
 	return vm
 }
 
@@ -359,6 +383,11 @@ func genC02(c *h.Ctx) {
 			c.Add(fmt.Sprintf("call %s %d %d", fn, ri, (i+ri)%len(argvs)), "call:1arg")
 		}
 		for ai := range argvs {
+			// every argument value also in the SECOND and THIRD position (behind a plain object / string)
+			c.Add(fmt.Sprintf("call %s %d 15,%d", fn, 7+ai%3, ai), "call:2nd-arg")
+			if ai%2 == i%2 {
+				c.Add(fmt.Sprintf("call %s %d 13,15,%d", fn, 7+ai%3, ai), "call:3rd-arg")
+			}
 			c.Add(fmt.Sprintf("call %s %d %d", fn, 6+ai%4, ai), "call:1arg")
 			c.Add(fmt.Sprintf("new %s 0 %d", fn, ai), "new")
 		}
